@@ -119,21 +119,25 @@ def loadMatchCriteria (ens : Option String) (onlyComparisonChildren : Bool) (x :
 
 /-! ### calibrators -/
 
+def loadSplinePoint (p : XmlNode) : LoadM SplinePoint := do
+  let r ← readRat (← p.attr! "raw")
+  let c ← readRat (← p.attr! "calibrated")
+  pure { raw := r, cal := c }
+
+def loadTerm (t : XmlNode) : LoadM PolyTerm := do
+  let c ← readRat (← t.attr! "coefficient")
+  let e ← readInt (← t.attr! "exponent")
+  pure { coef := c, exp := e }
+
 def loadSpline (x : XmlNode) : LoadM Calibrator := do
-  let pts ← x.elems.mapM (fun p => do
-    let r ← readRat (← p.attr! "raw")
-    let c ← readRat (← p.attr! "calibrated")
-    pure ({ raw := r, cal := c } : SplinePoint))
+  let pts ← x.elems.mapM loadSplinePoint
   let order ← match x.attr? "order" with | some o => readInt o | none => pure 0
   let extrapolate := boolAttr x "extrapolate" false
   if order > 1 then throw .other                      -- NotImplementedError
   pure (.spline { points := sortPoints pts, order := order, extrapolate := extrapolate })
 
 def loadPoly (x : XmlNode) : LoadM Calibrator := do
-  let ts ← x.elems.mapM (fun t => do
-    let c ← readRat (← t.attr! "coefficient")
-    let e ← readInt (← t.attr! "exponent")
-    pure ({ coef := c, exp := e } : PolyTerm))
+  let ts ← x.elems.mapM loadTerm
   pure (.poly ts)
 
 def loadContextCalibrator (ens : Option String) (x : XmlNode) : LoadM ContextCalibrator := do
